@@ -65,7 +65,8 @@ Definition sub1 (w : idword) : idword :=
 Definition bump (w : idword) : idword := mkW (cnt w) (dl w) (gen w + 1).   (* + 0x10 *)
 Definition set_dl (w : idword) (b : bool) : idword := mkW (cnt w) b (gen w).
 
-Record entry := mkE { e_uid : uid; e_id : option idx; e_exp : N * bool; e_body : nat }.
+Record entry := mkE { e_uid : uid; e_id : option idx; e_exp : N * bool; e_body : nat;
+                      e_kind : kind (* ghost: the kind it was posted as = the queue it was pushed into *) }.
 
 Inductive item :=
 | ICmd (c : cmd)
@@ -95,7 +96,7 @@ Inductive event :=
 | EvPushed (u : uid) (tgt : tid) (k : kind) (first : bool)
 | EvIntr (u : uid) (tgt : tid)
 | EvPostRet (u : uid)
-| EvRun (u : uid) (t : tid) (oid : option idx)
+| EvRun (u : uid) (t : tid) (oid : option idx) (k : kind)
 | EvRet (u : uid)
 | EvSkip (u : uid)
 | EvCwBegin (t : tid) (i : idx)
@@ -302,7 +303,7 @@ Definition interrupt (c : cfg) (tgt : tid) : option cfg :=
 Definition start_entry (c : cfg) (t : tid) (th : thread) (e : entry) (rest : list item) : cfg :=
   let body := nth (e_body e) (bodies c) [] in
   add_log (set_thread c t (set_cur (set_todo th (map ICmd body ++ IRet e :: rest)) (Some (e_uid e))))
-          [EvRun (e_uid e) t (e_id e)].
+          [EvRun (e_uid e) t (e_id e) (e_kind e)].
 
 (* one step of thread t; None = not enabled (finished, blocked in a wait, or ill-formed target) *)
 Definition step (c : cfg) (t : tid) : option cfg :=
@@ -326,7 +327,7 @@ Definition step (c : cfg) (t : tid) : option cfg :=
                 Some (set_thread c1 t (set_todo (inc_posted th) (IPostLock tgt k i u (upper w) b :: rest)))
           end
       | IPostLock tgt k i u exp b =>
-          match push_to c tgt k (mkE u (Some i) exp b) with
+          match push_to c tgt k (mkE u (Some i) exp b k) with
           | None => None
           | Some (c1, first) =>
               Some (add_log (set_thread c1 t (set_todo th (IPostSub tgt i u first :: rest)))
@@ -347,7 +348,7 @@ Definition step (c : cfg) (t : tid) : option cfg :=
           end
       | ICmd (Post tgt k None b) =>
           let u := (t, nposted th) in
-          match push_to c tgt k (mkE u None (0%N, false) b) with
+          match push_to c tgt k (mkE u None (0%N, false) b k) with
           | None => None
           | Some (c1, first) =>
               let c2 := add_log c1 [EvPushed u tgt k first; EvPost u tgt k None] in
